@@ -5,7 +5,7 @@
 
     The accumulator is Go's [uint32]: every [+=] carries an explicit [mod 2^32]
     (it cannot wrap while the upper layer is shorter than 131 000 bytes, see
-    Proofs/Checksum.v [no_wrap]). *)
+    Proofs/Checksum.v [wsum_lt_2_32], [covered_sum_lt]). *)
 From Coq Require Import List NArith ZArith Bool Uint63.
 From Scion Require Import Lib.Check Lib.Bytes.
 Import ListNotations.
